@@ -128,3 +128,11 @@ Example c11_reachable_example :
             inst s kb = IActive /\ inst s ka = IDone /\ cancel s 1 = Some 0 /\ cancel s 0 = None.
 Proof. exact fixed_example. Qed.
 Print Assumptions c11_reachable_example.
+
+(* known finding C11-N2 (why c11_released_afterwards excludes tree responses) *)
+Example c11_late_response_stays :
+  exists s, run all_fixed init [MsgLookup ka; MissCheck 0; LocalCreate kb; LocalSet kb; MsgLookup ka; MsgDeliver ka;
+                                Done kb; Done ka; TimerFire 0; TimerDelete 0; MissRegister 0; TreeArrive 0] = Some s /\
+            trees s 0 = TPresent /\ in_use s 0 = false /\ cancel s 0 = None /\ timers s = [] /\ hits s = [].
+Proof. exact late_response_stays. Qed.
+Print Assumptions c11_late_response_stays.
